@@ -69,7 +69,7 @@ func setup(s *core.Sess) {
 		s.MustExec(b.String())
 	}
 	s.MustExec("CREATE TABLE side (id INT AUTO_INCREMENT PRIMARY KEY, k INT UNIQUE, v VARCHAR(20))")
-	s.MustExec("CREATE TABLE typed (id INT PRIMARY KEY, f DOUBLE, dt DATETIME, da DATE, ti TIME, b VARBINARY(16), e ENUM('a','b'), j JSON, u BIGINT UNSIGNED, bl BOOLEAN, y YEAR, s SET('x','y'), dc DECIMAL(20,6), tx TEXT)")
+	s.MustExec("CREATE TABLE typed (id INT PRIMARY KEY, f DOUBLE, dt DATETIME, da DATE, ti TIME, b VARBINARY(16), e ENUM('a','b'), j JSON, u BIGINT UNSIGNED, bl BOOLEAN, y YEAR, s SET('x','y'), dc DECIMAL(20,6), tx TEXT, d6 DATETIME(6), ts3 TIMESTAMP(3))")
 	var b strings.Builder
 	b.WriteString("INSERT INTO typed VALUES ")
 	for id := 1; id <= 300; id++ {
@@ -77,11 +77,12 @@ func setup(s *core.Sess) {
 			b.WriteString(",")
 		}
 		if id%11 == 0 {
-			fmt.Fprintf(&b, "(%d,NULL,NULL,NULL,NULL,NULL,NULL,NULL,NULL,NULL,NULL,NULL,NULL,NULL)", id)
+			fmt.Fprintf(&b, "(%d,NULL,NULL,NULL,NULL,NULL,NULL,NULL,NULL,NULL,NULL,NULL,NULL,NULL,NULL,NULL)", id)
 			continue
 		}
-		fmt.Fprintf(&b, "(%d,%d.25,'2021-%02d-%02d %02d:%02d:%02d','2019-%02d-%02d','%02d:%02d:00',x'%02x00ff','%s','{\"a\": %d, \"b\": [1, \"x\"]}',%d,%d,%d,'%s',%d.%06d,'t%d''q')",
-			id, id*3, id%12+1, id%28+1, id%24, id%60, id%60, id%12+1, id%28+1, id%24, id%60, id%256, []string{"a", "b"}[id%2], id, uint64(18446744073709551615)-uint64(id), id%2, 1990+id%40, []string{"x", "y", "x,y"}[id%3], id*7, id, id)
+		fmt.Fprintf(&b, "(%d,%d.25,'2021-%02d-%02d %02d:%02d:%02d','2019-%02d-%02d','%02d:%02d:00',x'%02x00ff','%s','{\"a\": %d, \"b\": [1, \"x\"]}',%d,%d,%d,'%s',%d.%06d,'t%d''q','2021-03-04 05:06:07.%s','2022-02-02 02:02:02.%s')",
+			id, id*3, id%12+1, id%28+1, id%24, id%60, id%60, id%12+1, id%28+1, id%24, id%60, id%256, []string{"a", "b"}[id%2], id, uint64(18446744073709551615)-uint64(id), id%2, 1990+id%40, []string{"x", "y", "x,y"}[id%3], id*7, id, id,
+			[]string{"100000", "010000", "001000", "000100", "000010", "000001", "500000", "123456", "000000", "990000"}[id%10], []string{"100", "010", "001", "500", "000", "999"}[id%6])
 	}
 	s.MustExec(b.String())
 }
@@ -174,6 +175,18 @@ func refExec(s *core.Sess, q string) *result {
 			if v == nil {
 				cells[i] = null
 				continue
+			}
+			if tv, isTime := v.(time.Time); isTime {
+				// DATETIME / TIMESTAMP values are rendered here from the time.Time the engine produced, independently
+				// of Type.SQL, so that a slip in the text encoder shows as a difference between wire and engine
+				if dt, isDT := res.Schema[i].Type.(sql.DatetimeType); isDT && (types.IsDatetimeType(dt) || types.IsTimestampType(dt)) {
+					txt := tv.Format("2006-01-02 15:04:05")
+					if p := dt.Precision(); p > 0 && p <= 6 {
+						txt += "." + fmt.Sprintf("%06d", tv.Nanosecond()/1000)[:p]
+					}
+					cells[i] = txt
+					continue
+				}
 			}
 			sv, err := res.Schema[i].Type.SQL(ctx, nil, v)
 			if err != nil {
